@@ -107,6 +107,9 @@ def main():
             {"name": "tw-verif", "path": "/verif/harness",
              "serves_properties": IMPLEMENTED,
              "kind_free_text": "Rust crate: proptest strategies -> serializable case structs -> per-property oracles; 16 fixed shards seeded from VERIF_SEED; shrinking; JSON replay; regression and known-finding replays; built twice (textwrap default features / no default features) against /repo's working tree with overflow checks and debug assertions"},
+            {"name": "tw-verif-fuzz", "path": "/verif/fuzz",
+             "serves_properties": IMPLEMENTED,
+             "kind_free_text": "cargo-fuzz crate with one libFuzzer target (fuzz_targets/prop.rs); TW_FUZZ_PROPERTY selects the property, bytes are decoded by the harness's own decoders into the same case structs and judged by the same oracles; used by the thorough tier only (8 jobs, fixed -runs, -seed derived from VERIF_SEED); a failure is re-judged in the plain harness before it is reported"},
         ],
         "checks": checks,
         "notes": "Exit 0 = held on everything explored (KNOWN-FINDING lines possible); exit 1 + VIOLATION line; exit 2 = inconclusive (build failure, unhealthy generator, watchdog). Repairs of genuine defects are the five 'fix:' commits in /repo, recorded in /verif/known_findings.json together with three open findings of one root cause (KF-C05-1, KF-C13-1, KF-C14-1). Sensitivity evidence: MUTATION.md, mutants/, seeded/.",
